@@ -7,6 +7,9 @@ to every source pattern of engine.pat, so that rules see (and are written agains
       a (dotted) ALL_CAPS name counts as a constant
   N3  if not C: A else: B             ->  if C: B else: A       (else-arm present; an `elif` chain under `if not C` becomes the body of the else)
 
+  N4  noise statements are dropped: bare annotations (`x: int`), logging / print / warnings calls, stores of a constant or a name
+      into a local that is never read (none of them can change what the function computes or raises)
+
 Each rewrite preserves behaviour for the builtin types the package compares and accumulates (ints, bytes, str, names, lists).
 engine.cfg.canonical_atom applies the same N2 convention to comparison atoms (also after a `not` has been pushed inwards).
 """
@@ -44,6 +47,7 @@ def eq_rank(t: str) -> tuple:
 
 
 def normalise(tree: ast.AST) -> ast.AST:
+    drop_noise(tree)
     for n in ast.walk(tree):
         if isinstance(n, ast.Compare) and len(n.ops) == 1 and type(n.ops[0]) in _FLIP:
             l, r = n.left, n.comparators[0]
@@ -67,3 +71,58 @@ def normalise(tree: ast.AST) -> ast.AST:
 
 def _only_ellipsis(stmts) -> bool:
     return False
+
+
+_LOG_ROOTS = ("logging", "log", "logger", "_log", "_logger", "LOG", "LOGGER", "warnings")
+
+
+def _is_noise(st, dead) -> bool:
+    """statements that cannot change what a function computes or raises (up to log output):
+    bare annotations, logging / print / warnings calls, and stores of a constant into a local that is never read"""
+    if isinstance(st, ast.AnnAssign) and st.value is None and isinstance(st.target, ast.Name):
+        return True
+    if isinstance(st, ast.Expr) and isinstance(st.value, ast.Call):
+        f = st.value.func
+        root = f
+        while isinstance(root, (ast.Attribute, ast.Call)):
+            root = root.value if isinstance(root, ast.Attribute) else root.func
+        if isinstance(f, ast.Name) and f.id == "print":
+            return True
+        if isinstance(root, ast.Name) and root.id in _LOG_ROOTS and isinstance(f, ast.Attribute) and f.attr in ("debug", "info", "warning", "warn", "error", "exception", "critical", "log"):
+            return True
+    if isinstance(st, ast.Assign) and len(st.targets) == 1 and isinstance(st.targets[0], ast.Name) and st.targets[0].id in dead \
+            and isinstance(st.value, (ast.Constant, ast.Name)):
+        return True
+    return False
+
+
+def drop_noise(tree: ast.AST) -> ast.AST:
+    """N4: remove noise statements from every function body (never leaving a body empty)."""
+    for fn in ast.walk(tree):
+        if not isinstance(fn, (ast.FunctionDef, ast.AsyncFunctionDef)):
+            continue
+        loads, stores = set(), {}
+        declared = set()
+        for n in ast.walk(fn):
+            if isinstance(n, ast.Name):
+                if isinstance(n.ctx, ast.Load) or isinstance(n.ctx, ast.Del):
+                    loads.add(n.id)
+                else:
+                    stores[n.id] = stores.get(n.id, 0) + 1
+            elif isinstance(n, (ast.Global, ast.Nonlocal)):
+                declared |= set(n.names)
+        params = {a.arg for a in fn.args.posonlyargs + fn.args.args + fn.args.kwonlyargs} | ({fn.args.vararg.arg} if fn.args.vararg else set()) | ({fn.args.kwarg.arg} if fn.args.kwarg else set())
+        dead = {v for v in stores if v not in loads and v not in declared and v not in params}
+        for n in ast.walk(fn):
+            for fld in ("body", "orelse", "finalbody"):
+                b = getattr(n, fld, None)
+                if isinstance(b, list) and b and isinstance(b[0], ast.stmt):
+                    kept = [st for st in b if not _is_noise(st, dead)]
+                    if kept and len(kept) != len(b):
+                        b[:] = kept
+            if isinstance(n, ast.Try):
+                for h in n.handlers:
+                    kept = [st for st in h.body if not _is_noise(st, dead)]
+                    if kept and len(kept) != len(h.body):
+                        h.body[:] = kept
+    return tree
